@@ -9,6 +9,7 @@ import (
 	"context"
 	"fmt"
 	"io"
+	"sync"
 	"time"
 
 	spb "github.com/openconfig/gribi/v1/proto/service"
@@ -23,6 +24,7 @@ import (
 
 // Net connects clients to one gRIBI server implementation.
 type Net struct {
+	mu  sync.Mutex
 	Srv spb.GRIBIServer
 	// Window is the number of unread server->client messages before the server's
 	// Send blocks (0 = unbounded); ReqWindow is the same for client->server.
@@ -45,6 +47,10 @@ type pipe struct {
 
 // Stream is one RPC (Modify or Get).
 type Stream struct {
+	// mu makes the stream's state safe when client and handler tasks really run
+	// concurrently (co-release mode); it is never held across a park. Like a real
+	// transport it orders a message's send before its receipt, and nothing else.
+	mu   sync.Mutex
 	ID   int
 	Kind string
 	net  *Net
@@ -67,8 +73,21 @@ func (n *Net) newStream(kind string) *Stream {
 	s := simrt.Active()
 	st := &Stream{ID: s.NextID(), Kind: kind, net: n}
 	st.ctx, st.stop = context.WithCancel(context.Background())
-	n.Streams = append(n.Streams, st)
+	if !simrt.CoRelease() {
+		n.mu.Lock()
+		n.Streams = append(n.Streams, st)
+		n.mu.Unlock()
+	}
 	return st
+}
+
+// locked evaluates f under the stream mutex (conditions are evaluated by the controller).
+func (st *Stream) locked(f func() bool) func() bool {
+	return func() bool {
+		st.mu.Lock()
+		defer st.mu.Unlock()
+		return f()
+	}
 }
 
 func (st *Stream) name() string { return fmt.Sprintf("%s#%d", st.Kind, st.ID) }
@@ -102,9 +121,11 @@ func (s serverStream) RecvMsg(m any) error {
 
 func (st *Stream) srvRecv() (proto.Message, error) {
 	simrt.Sync("srv.Recv " + st.name())
-	simrt.WaitUntil("srv.Recv "+st.name(), "client message on "+st.name(), 0, func() bool {
+	simrt.WaitUntil("srv.Recv "+st.name(), "client message on "+st.name(), 0, st.locked(func() bool {
 		return len(st.c2s.q) > 0 || st.c2s.closed || st.srvErr != nil || st.finished
-	})
+	}))
+	st.mu.Lock()
+	defer st.mu.Unlock()
 	if len(st.c2s.q) > 0 {
 		m := st.c2s.q[0]
 		st.c2s.q = st.c2s.q[1:]
@@ -122,21 +143,25 @@ func (st *Stream) srvRecv() (proto.Message, error) {
 
 func (st *Stream) srvSend(m proto.Message) error {
 	simrt.Sync("srv.Send " + st.name())
-	if st.srvErr != nil || st.finished {
-		return status.Error(codes.Unavailable, "transport is closing")
-	}
-	if w := st.net.Window; w > 0 && len(st.s2c.q) >= w {
-		simrt.Active().Probe("server Send blocked on flow control")
-		simrt.WaitUntil("srv.Send "+st.name(), "window space on "+st.name(), 0, func() bool {
-			return len(st.s2c.q) < w || st.srvErr != nil || st.finished
-		})
+	w := st.net.Window
+	for {
+		st.mu.Lock()
 		if st.srvErr != nil || st.finished {
+			st.mu.Unlock()
 			return status.Error(codes.Unavailable, "transport is closing")
 		}
+		if w <= 0 || len(st.s2c.q) < w {
+			st.s2c.q = append(st.s2c.q, proto.Clone(m))
+			st.mu.Unlock()
+			simrt.Active().Log("srv.send", st.name())
+			return nil
+		}
+		st.mu.Unlock()
+		simrt.Active().Probe("server Send blocked on flow control")
+		simrt.WaitUntil("srv.Send "+st.name(), "window space on "+st.name(), 0, st.locked(func() bool {
+			return len(st.s2c.q) < w || st.srvErr != nil || st.finished
+		}))
 	}
-	st.s2c.q = append(st.s2c.q, proto.Clone(m))
-	simrt.Active().Log("srv.send", st.name())
-	return nil
 }
 
 type modifyServer struct{ serverStream }
@@ -156,8 +181,10 @@ func (g getServer) Send(r *spb.GetResponse) error { return g.st.srvSend(r) }
 
 func (st *Stream) finish(err error) {
 	simrt.Sync("handler return " + st.name())
+	st.mu.Lock()
 	st.finished = true
 	st.result = err
+	st.mu.Unlock()
 	st.stop()
 	c := "OK"
 	if err != nil {
@@ -185,28 +212,34 @@ func (c clientStream) RecvMsg(m any) error {
 }
 func (c clientStream) CloseSend() error {
 	simrt.Sync("cli.CloseSend " + c.st.name())
+	c.st.mu.Lock()
 	c.st.c2s.closed = true
+	c.st.mu.Unlock()
 	simrt.Active().Log("cli.closesend", c.st.name())
 	return nil
 }
 
 func (st *Stream) cliSend(m proto.Message) error {
 	simrt.Sync("cli.Send " + st.name())
-	if st.cliErr != nil || st.finished || st.c2s.closed {
-		return io.EOF
-	}
-	if w := st.net.ReqWindow; w > 0 && len(st.c2s.q) >= w {
-		simrt.WaitUntil("cli.Send "+st.name(), "window space on "+st.name(), 0, func() bool {
-			return len(st.c2s.q) < w || st.cliErr != nil || st.finished
-		})
-		if st.cliErr != nil || st.finished {
+	w := st.net.ReqWindow
+	for {
+		st.mu.Lock()
+		if st.cliErr != nil || st.finished || st.c2s.closed {
+			st.mu.Unlock()
 			return io.EOF
 		}
+		if w <= 0 || len(st.c2s.q) < w {
+			st.c2s.q = append(st.c2s.q, proto.Clone(m))
+			st.Sent++
+			st.mu.Unlock()
+			simrt.Active().Log("cli.send", st.name())
+			return nil
+		}
+		st.mu.Unlock()
+		simrt.WaitUntil("cli.Send "+st.name(), "window space on "+st.name(), 0, st.locked(func() bool {
+			return len(st.c2s.q) < w || st.cliErr != nil || st.finished
+		}))
 	}
-	st.c2s.q = append(st.c2s.q, proto.Clone(m))
-	st.Sent++
-	simrt.Active().Log("cli.send", st.name())
-	return nil
 }
 
 // ErrTimeout is returned by RecvTimeout when nothing arrived in time.
@@ -214,12 +247,14 @@ var ErrTimeout = fmt.Errorf("simnet: receive timed out")
 
 func (st *Stream) cliRecv(timeout time.Duration) (proto.Message, error) {
 	simrt.Sync("cli.Recv " + st.name())
-	ok := simrt.WaitUntil("cli.Recv "+st.name(), "server message on "+st.name(), timeout, func() bool {
+	ok := simrt.WaitUntil("cli.Recv "+st.name(), "server message on "+st.name(), timeout, st.locked(func() bool {
 		return len(st.s2c.q) > 0 || st.finished || st.cliErr != nil
-	})
+	}))
 	if !ok {
 		return nil, ErrTimeout
 	}
+	st.mu.Lock()
+	defer st.mu.Unlock()
 	if st.cliErr != nil {
 		return nil, st.cliErr
 	}
@@ -272,7 +307,10 @@ func (m *ModifyClient) RecvTimeout(d time.Duration) (*spb.ModifyResponse, error)
 // error (io.EOF for an OK status) with ok=true.
 func (m *ModifyClient) TryRecv() (*spb.ModifyResponse, error, bool) {
 	st := m.st
-	if st.cliErr == nil && len(st.s2c.q) == 0 && !st.finished {
+	st.mu.Lock()
+	nothing := st.cliErr == nil && len(st.s2c.q) == 0 && !st.finished
+	st.mu.Unlock()
+	if nothing {
 		return nil, nil, false
 	}
 	r, err := m.Recv()
@@ -321,6 +359,8 @@ func (st *Stream) Reset() {
 
 func (st *Stream) abort(c codes.Code, msg, kind string) {
 	s := simrt.Active()
+	st.mu.Lock()
+	defer st.mu.Unlock()
 	if st.cliErr != nil {
 		return
 	}
@@ -339,11 +379,31 @@ func (st *Stream) abort(c codes.Code, msg, kind string) {
 }
 
 // Dead reports whether the RPC has terminated from the client's point of view.
-func (st *Stream) Dead() bool          { return st.finished || st.cliErr != nil }
-func (st *Stream) Finished() bool      { return st.finished }
-func (st *Stream) Result() error       { return st.result }
-func (st *Stream) QueuedToServer() int { return len(st.c2s.q) }
-func (st *Stream) QueuedToClient() int { return len(st.s2c.q) }
+func (st *Stream) Dead() bool {
+	st.mu.Lock()
+	defer st.mu.Unlock()
+	return st.finished || st.cliErr != nil
+}
+func (st *Stream) Finished() bool {
+	st.mu.Lock()
+	defer st.mu.Unlock()
+	return st.finished
+}
+func (st *Stream) Result() error {
+	st.mu.Lock()
+	defer st.mu.Unlock()
+	return st.result
+}
+func (st *Stream) QueuedToServer() int {
+	st.mu.Lock()
+	defer st.mu.Unlock()
+	return len(st.c2s.q)
+}
+func (st *Stream) QueuedToClient() int {
+	st.mu.Lock()
+	defer st.mu.Unlock()
+	return len(st.s2c.q)
+}
 
 // ---------------------------------------------------------------------------
 // spb.GRIBIClient
@@ -421,10 +481,13 @@ func (n *Net) Flush(ctx context.Context, in *spb.FlushRequest, opts ...grpc.Call
 		resp = r
 		st.finish(err)
 	})
-	simrt.WaitUntil("Flush wait "+st.name(), "flush response", 0, func() bool {
+	simrt.WaitUntil("Flush wait "+st.name(), "flush response", 0, st.locked(func() bool {
 		return st.finished || (ctx != nil && ctx.Err() != nil)
-	})
-	if !st.finished {
+	}))
+	st.mu.Lock()
+	fin := st.finished
+	st.mu.Unlock()
+	if !fin {
 		return nil, status.FromContextError(ctx.Err()).Err()
 	}
 	if st.result != nil {
